@@ -84,6 +84,18 @@ var regressCases = []regressCase{
 		}
 		return ""
 	}},
+	{"C19", "C19/panic/many-args", "Call(CallArgs(129 ints)) on func(...int): no panic; a call with exactly those arguments, or an error without a call", func() string {
+		args := make([]any, 129)
+		for i := range args {
+			args[i] = i
+		}
+		calls, got := 0, -1
+		err := bigbuff.Call(bigbuff.NewCallable(func(xs ...int) { calls++; got = len(xs) }), bigbuff.CallArgs(args...))
+		if (err == nil && (calls != 1 || got != 129)) || (err != nil && calls != 0) {
+			return fmt.Sprintf("err=%v calls=%d received=%d", err, calls, got)
+		}
+		return ""
+	}},
 	{"C15", "C15/publish-nil-panic", "Publish(key, nil) reaches a chan error subscriber as a nil error and skips a chan int one", func() string {
 		var n bigbuff.Notifier
 		ce := make(chan error, 1)
